@@ -19,7 +19,7 @@
    of the step.  The harness executes the skeleton on the real code and the trace
    specification recomputes median and era from what the code recorded.       *)
 EXTENDS Difficulty, TLC, Json
-CONSTANTS ShapeIds, Intervals, TargetIds, ChainLen, Win, TwoRegime
+CONSTANTS ShapeIds, Intervals, TargetIds, ChainLen, Win, TwoRegime, Spread
 
 \* oakTime: the oak time (seconds) installed by the ASIC reset; the small values let the decayed time
 \* reach zero within the chain (the retargeting divides by it)
@@ -39,7 +39,9 @@ vars == <<shape, interval, tgt, b1, b2, pos, h, prev, hist>>
 Net == [oak |-> Shapes[shape].oak, asic |-> Shapes[shape].asic, allow |-> Shapes[shape].allow,
         final |-> Shapes[shape].final, interval |-> interval, factor |-> 1]
 
-\* (the target class does not influence the timestamp layer: it is chosen with the last header)
+\* (the target class does not influence the timestamp layer: it is chosen with the last header.  Spread = 1: every
+\*  chain with every class; Spread = n thins the product: a chain takes the classes t with t + pos + b1 + b2 = 0 mod n,
+\*  so that every class still meets every shape, interval and free choice)
 Init == /\ shape \in ShapeIds /\ interval \in Intervals /\ tgt = 0
         /\ b1 \in Choices /\ pos \in 1..ChainLen
         /\ b2 \in (IF TwoRegime THEN Choices ELSE {b1})
@@ -62,7 +64,7 @@ Step(c) == LET ts == Resolve(c, prev, interval) IN
   /\ h' = h + 1
   /\ prev' = Window(<<ts>> \o prev)
   /\ hist' = Append(hist, <<c, ts, Median2(prev), EraRank(Era(Net, h + 1))>>)
-  /\ tgt' \in (IF h + 1 = ChainLen THEN TargetIds ELSE {0})
+  /\ tgt' \in (IF h + 1 = ChainLen THEN {t \in TargetIds : (t + pos + b1 + b2) % Spread = 0} ELSE {0})
   /\ UNCHANGED <<shape, interval, b1, b2, pos>>
 
 Next == /\ h < ChainLen
